@@ -429,7 +429,8 @@ class MarkovNetwork(UndirectedGraph):
             order = []
 
             cardinalities = self.get_cardinality()
-            for index in range(self.number_of_nodes()):
+            # Only the nodes that have edges take part in the elimination.
+            for index in range(graph_copy.number_of_nodes()):
                 # S represents the size of clique created by deleting the
                 # node from the graph
                 S = {}
@@ -490,6 +491,8 @@ class MarkovNetwork(UndirectedGraph):
 
         else:
             graph_copy = MarkovNetwork(self.edges())
+            # Keep the nodes that have no edges.
+            graph_copy.add_nodes_from(self.nodes())
             for edge in edge_set:
                 graph_copy.add_edge(edge[0], edge[1])
             return graph_copy
